@@ -12,7 +12,7 @@ oracle would miss is still caught.
 import array
 import itertools
 
-from .. import core, spaces, sweep
+from .. import core, observe, spaces, sweep
 from ..engine import product
 from ..engine.product import Block, parts
 from ..ref import score4, tables as T
@@ -142,7 +142,7 @@ def visit(acc, blk, vec, asg, idx):
     acc["calls"] += 2
     tab = _TABLES[blk.name]
     try:
-        sc = getattr(cvss, T.CLASSNAME[blk.family])(vec).scores()
+        sc = observe.construct(blk.family, vec).scores()
         b = bytes(NONE if s is None else int(round(s * 10)) for s in sc)
         if len(b) != tab.nslots or any(x > 100 and x != NONE for x in b):
             raise ValueError("unusable scores %r" % (sc,))
